@@ -81,9 +81,12 @@ def witnesses(tier, seed):
     if quick:
         tops3 = rng_top.sample(tops3, min(len(tops3), 110))
         tops4 = rng_top.sample(tops4, min(len(tops4), 36))
+    else:   # sized for about half an hour on 16 cores: a fixed sample (frozen so that known findings stay keyed by topology)
+        tops3 = rng_top.sample(tops3, min(len(tops3), 900))
+        tops4 = rng_top.sample(tops4, min(len(tops4), 300))
     for lists in tops3 + tops4:
         labels = sorted(set(l for L in lists for l in L))
-        for ext in ext_assignments(labels, rng, 2 if quick else 5, 64, lists):
+        for ext in ext_assignments(labels, rng, 2 if quick else 3, 64, lists):
             k += 1
             W.append(mk(T3[k % 3], lists, ext))
     # vectorisable extents on the last index of the last operand (the fused no-op-min kernels vectorise over it when it is free)
